@@ -214,6 +214,15 @@ func c17Pair(c *rt.Ctx, fsType string, h int) {
 			{K: "Chdir", P: "/w"}, {K: "EvalSymlinks", P: "abs/f"}, {K: "EvalSymlinks", P: "abs/../g"}, {K: "EvalSymlinks", P: "abs/../../w/t/f"},
 			{K: "EvalSymlinks", P: "rel"}, {K: "EvalSymlinks", P: "top/w/g"}, {K: "EvalSymlinks", P: "top/toprel"}, {K: "ReadFile", P: "top/toprel"}, {K: "Chdir", P: "/"}}
 	}
+	// another one starts with directory handles - on the root of the volume, on /w, on a deeper directory - whose Chdir
+	// method sets the current directory, followed by calls on relative paths (the absolute name a handle remembers
+	// has a volume on Windows)
+	if h%4 == 1 {
+		queue = []fsx.Op{{K: "Mkdir", P: "/w/t", Perm: 0o755}, {K: "WriteFile", P: "/w/t/f", Data: "tf", Perm: 0o644},
+			{K: "OpenFile", P: "/", Flag: 0, H: 0}, {K: "OpenFile", P: "/w", Flag: 0, H: 1}, {K: "OpenFile", P: "/w/t", Flag: 0, H: 2},
+			{K: "F.Chdir", H: 2}, {K: "ReadFile", P: "f"}, {K: "F.Chdir", H: 0}, {K: "Getwd"}, {K: "ReadFile", P: "w/t/f"}, {K: "Mkdir", P: "w/made", Perm: 0o755}, {K: "Stat", P: "/w/made"},
+			{K: "WriteFile", P: "w/made/g", Data: "g", Perm: 0o644}, {K: "F.Chdir", H: 1}, {K: "ReadFile", P: "made/g"}, {K: "Rename", P: "made/g", Q: "t/g"}, {K: "F.Chdir", H: 0}, {K: "ReadFile", P: "w/t/g"}}
+	}
 	n := c.Pick(60, 120)
 	for i := 0; i < n; i++ {
 		fsx.BeginCall()
@@ -261,7 +270,7 @@ func c17Pair(c *rt.Ctx, fsType string, h int) {
 		if o.K == "RemoveAll" && r.IntN(6) == 0 {
 			o.P = []string{"/", "/w", "/w/.."}[r.IntN(3)] // the whole volume / the whole compared subtree
 		}
-		if o.K == "F.Chdir" || o.K == "Chown" || o.K == "Lchown" || o.K == "F.Chown" {
+		if o.K == "Chown" || o.K == "Lchown" || o.K == "F.Chown" {
 			continue
 		}
 		if ap, err := lv.Abs(o.P); (o.K == "Remove" || o.K == "Rename") && (err != nil || ap == "/w" || ap == "/") {
